@@ -528,9 +528,15 @@ func (v *Visitor) Visit(s *df.AnalyzerState, source df.NodeWithTrace) {
 				}
 				if graphNode.Index() < len(bvs) {
 					bv := bvs[graphNode.Index()]
+					// the call trace may be empty although a closure is being traced (e.g. the data came through a
+					// global variable): there is no calling context to pop then
+					var callerTrace *df.NodeTree[*df.CallNode]
+					if cur.Trace != nil {
+						callerTrace = cur.Trace.Parent
+					}
 					nextNodeWithTrace := df.NodeWithTrace{
 						Node:         bv,
-						Trace:        cur.Trace.Parent,
+						Trace:        callerTrace,
 						ClosureTrace: cur.ClosureTrace.Parent,
 					}
 					que = v.addNext(s, que, cur, nil, nextNodeWithTrace, cur.Status, df.EdgeInfo{})
